@@ -20,6 +20,8 @@ def cases(tier, seed):
         # the operators use 50 sweeps: unrolled once (twice in the thorough tier)
         for op in ('divide', 'rdivide'):
             cs.append({'scen': 'solve_structure', 's': {'op': op, 'N': N, 'RA': RA, 'Rb': Rb, 'unroll': 1 if (not th or d >= 3) else 2}})
+    # the numerator doubles as the starting tensor
+    cs.append({'scen': 'solve_structure', 's': {'op': 'elementwise_divide', 'N': [2, 3], 'RA': [1, 2, 1], 'Rb': [1, 2, 1], 'kw': {'nswp': 1}, 'guess_is': 'operand'}})
     return cs
 
 
